@@ -75,6 +75,9 @@ def r_varmap(rule, root=None):
         rule.bad("writers", "VarMap's &mut self methods are %s; indices must only ever be assigned by insert" % writers, A.where(VAR, {}))
 
 
+from .. import factrules as FR
+
+
 def run(ctx):
     r = ctx.rule("R1", "X/Y/Z and free variables are bound by identity; the transform is applied in axis order", 16)
     ctx.guarded(r, SC.r_axis_binding)
@@ -88,3 +91,5 @@ def run(ctx):
     ctx.guarded(r, r1_free_fixed)
     r = ctx.rule("R4", "Transformable for f32 / Interval / Grad are the same homogeneous transform", 7)
     ctx.guarded(r, lambda rule: SC.r_transformable(rule, ("Interval", "Grad", "f32")))
+    r = ctx.rule("R2f", "[resolved program] VarMap fields are never assigned outside construction", 8)
+    ctx.guarded(r, FR.send_sync_inventory, ctx)
